@@ -7,7 +7,8 @@ curve df for HW by the closed-form alpha, for BK/BDT from the root-search postco
 not fit — counterexample), C03c.lean (backward induction: the state-price pairing is invariant, hence zero
 and coupon bonds price to the curve; monotone operator ⇒ american ≥ european ≥ 0, callable ≤ pure ≤ puttable).
 Correspondence: module-level njit builders / backward kernels vs the hand model (Driver/C03) element-wise.
-Direct oracles on the implementation: see ORACLES below; they run on every check."""
+Direct oracles on the implementation: see ORACLES below; they run on every check.  They include the re-use
+oracle: a model / product object used on curve A and then on curve B must equal fresh objects on curve B."""
 import json
 import math
 import os
@@ -27,7 +28,9 @@ RULE = ('tree arrays: seed-chosen (curve shape x a x sigma x maturity x steps>=3
         'and every row is checked against the curve df; non-trivial = a tree with at least one edge-branching level '
         '(HW/BK) or sigma>0 (BDT). bondpure/ordering/convergence: seed-chosen bonds, strikes, schedules with option '
         'expiries kept at least one tree step away from every coupon time; non-trivial = sigma>0 and at least one '
-        'coupon or exercise date. All cases distinct by construction (continuous parameters).')
+        'coupon or exercise date. re-use: one HW/BK/BDT model object (and product object) built/valued on curve A then '
+        'on a differently shaped curve B (same maturity and steps, another step count, back) vs freshly constructed '
+        'objects, arrays and values to 1e-12. All cases distinct by construction (continuous parameters).')
 
 F_BDT = 'C03/bdt-mixed-compounding'
 F_EDGE = 'C03/hw-jmax-threshold-0.1835'
@@ -409,7 +412,188 @@ def oracle_hwconv(np, case):
     return out
 
 
-ORACLES = {'tree': oracle_tree, 'bond': oracle_bond, 'option': oracle_option}
+# ------------------------------------------------------------------------------------------ re-use (no stale tree)
+MODEL_ARRAYS = {'hw': ['Q', 'pu', 'pm', 'pd', 'r_t', 'tree_times', 'df_times', 'dfs'],
+                'bk': ['Q', 'pu', 'pm', 'pd', 'rt', 'tree_times', 'df_times', 'dfs'],
+                'bdt': ['Q', 'rt', 'tree_times', 'df_times', 'dfs']}
+
+
+def new_model(kind, sigma, a, n):
+    from financepy.models.hw_tree import HWTree
+    from financepy.models.bk_tree import BKTree
+    from financepy.models.bdt_tree import BDTTree
+    if kind == 'hw':
+        return HWTree(sigma, a, n)
+    if kind == 'bk':
+        return BKTree(sigma, a, n)
+    return BDTTree(sigma, n)
+
+
+def same(np, x, y, rtol=1e-12):
+    x, y = np.asarray(x, dtype=float), np.asarray(y, dtype=float)
+    if x.shape != y.shape:
+        return False, float('inf')
+    if np.array_equal(x, y):
+        return True, 0.0
+    d = float(np.max(np.abs(x - y))) if x.size else 0.0
+    return bool(np.all(np.abs(x - y) <= 1e-14 + rtol * np.maximum(np.abs(x), np.abs(y)))), d
+
+
+def model_values(np, kind, model, case):
+    """every value the model object hands out for the bond / option of the case"""
+    from financepy.utils.global_types import FinExerciseTypes
+    f = lambda x: np.array(x, dtype=float)  # noqa: E731
+    out = {}
+    b, o = case['bond'], case.get('opt')
+    if kind in ('hw', 'bk'):
+        v = model.callable_puttable_bond_tree(f(b['cpn_times']), f(b['cpn_flows']), b.get('call_t', []), b.get('call_p', []),
+                                              b.get('put_t', []), b.get('put_p', []), float(b['face']))
+        out['bondpure'] = float(v['bondpure'])
+        out['bondwithoption'] = float(v['bondwithoption'])
+    if o is not None:
+        for ex in (FinExerciseTypes.EUROPEAN, FinExerciseTypes.AMERICAN):
+            v = model.bond_option(float(o['t_exp']), float(o['strike']), float(o['face']), f(o['cpn_times']),
+                                  f(o['cpn_flows']), ex)
+            out[f'bond_option/{ex.name}/call'] = float(v['call'])
+            out[f'bond_option/{ex.name}/put'] = float(v['put'])
+    return out
+
+
+def oracle_reuse(np, case, A=None):
+    """One model object built and used on curve A, then on curve B (same maturity and step count; then another
+    step count, then back) must hand out exactly what a freshly constructed model gives on curve B: the tree
+    arrays, bondpure / bondwithoption, bond_option.  A tree is a function of the curve it is GIVEN."""
+    out = Fails()
+    kind, T = case['kind'], case['T']
+    sigma, a = case['sigma'], case.get('a', 0.0)
+    tkA, dkA = np.array(case['times'], dtype=float), np.array(case['dfs'], dtype=float)
+    tkB, dkB = np.array(case['timesB'], dtype=float), np.array(case['dfsB'], dtype=float)
+
+    def check(tag, reused, fresh):
+        for nm in MODEL_ARRAYS[kind]:
+            ok, d = same(np, getattr(reused, nm), getattr(fresh, nm))
+            if not ok:
+                out.add('reuse-arrays', f'{kind} model object re-used {tag}: {nm} differs from a freshly built model '
+                        f'on the same curve (max abs diff {d:.3e})', array=nm, step=tag)
+                break
+        ok, d = same(np, reused.dt, fresh.dt)
+        if not ok:
+            out.add('reuse-arrays', f'{kind} model object re-used {tag}: dt differs from a fresh model', step=tag)
+        vr, vf = model_values(np, kind, reused, case), model_values(np, kind, fresh, case)
+        for k_ in vf:
+            ok, d = same(np, vr[k_], vf[k_])
+            if not ok:
+                out.add('reuse-values', f'{kind} model object re-used {tag}: {k_} = {vr[k_]!r}, a fresh model on the same '
+                        f'curve gives {vf[k_]!r}', value=k_, reused=vr[k_], fresh=vf[k_], step=tag)
+                break
+
+    n, n2 = case['n'], case['n2']
+    model = new_model(kind, sigma, a, n)
+    model.build_tree(T, tkA, dkA)
+    model_values(np, kind, model, case)                       # use it on curve A
+    model.build_tree(T, tkB, dkB)                             # same grid, second curve
+    fresh = new_model(kind, sigma, a, n)
+    fresh.build_tree(T, tkB, dkB)
+    check('on a second curve (same maturity, same steps)', model, fresh)
+    model.num_time_steps = n2                                 # other step count, second curve
+    model.build_tree(T, tkB, dkB)
+    fresh2 = new_model(kind, sigma, a, n2)
+    fresh2.build_tree(T, tkB, dkB)
+    check(f'after changing num_time_steps {n}->{n2}', model, fresh2)
+    model.num_time_steps = n                                  # back to the first grid, first curve
+    model.build_tree(T, tkA, dkA)
+    fresh3 = new_model(kind, sigma, a, n)
+    fresh3.build_tree(T, tkA, dkA)
+    check('back on the first curve and step count', model, fresh3)
+    return out, None
+
+
+def product_world(np, case):
+    """Re-create the dates, curves and products of a product-level re-use case from its primitive fields."""
+    from financepy.utils.date import Date
+    from financepy.utils.frequency import FrequencyTypes
+    from financepy.utils.day_count import DayCountTypes
+    from financepy.market.curves.discount_curve import DiscountCurve
+    from financepy.products.bonds.bond import Bond
+    vd = Date(*case['value_dmy'])
+    kd = [vd.add_days(int(round(t * 365))) for t in case['times'][1:]]
+    cA = DiscountCurve(vd, kd, np.array(case['dfs'][1:]))
+    cB = DiscountCurve(vd, kd, np.array(case['dfsB'][1:]))
+    issue = vd.add_months(-case['issue_months_back'])
+    mat = issue.add_years(case['mat_years'])
+    freq = FrequencyTypes[case['freq']]
+
+    def bond():
+        return Bond(issue, mat, case['coupon'], freq, DayCountTypes.ACT_ACT_ICMA)
+    return vd, cA, cB, issue, mat, freq, bond
+
+
+def oracle_reuse_product(np, case, A=None):
+    """A model object (and a product object) valued on curve A and then on curve B must return, on curve B, what
+    freshly constructed objects return: BondOption.value, BondEmbeddedOption.value, IborBermudanSwaption.value."""
+    from financepy.utils.day_count import DayCountTypes
+    from financepy.utils.frequency import FrequencyTypes
+    from financepy.utils.global_types import OptionTypes, FinExerciseTypes, SwapTypes
+    from financepy.products.bonds.bond_option import BondOption
+    from financepy.products.bonds.bond_callable import BondEmbeddedOption
+    from financepy.products.rates.ibor_bermudan_swaption import IborBermudanSwaption
+    out = Fails()
+    vd, cA, cB, issue, mat, freq, bond = product_world(np, case)
+    kind, n = case['kind'], case['n']
+    sigma = case['sigma_hw'] if kind == 'hw' else case['sigma_ln']
+
+    def mk():
+        return new_model(kind, sigma, case['a'], n)
+
+    def cmp_(what, got, want):
+        for k_ in want:
+            ok, d = same(np, got[k_], want[k_])
+            if not ok:
+                out.add('reuse-values', f'{what}[{kind}] valued on curve A and then on curve B returns {k_} = {got[k_]!r} on curve B; '
+                        f'freshly constructed objects give {want[k_]!r}', value=k_, reused=got[k_], fresh=want[k_], product=what)
+                return
+    exp = vd.add_days(case['expiry_days'])
+    for ot in (OptionTypes.EUROPEAN_CALL, OptionTypes.AMERICAN_PUT):
+        def bo():
+            return BondOption(bond(), exp, case['strike'], ot)
+        want = {ot.name: float(bo().value(vd, cB, mk()))}
+        m, p = mk(), bo()                                    # re-used model and product
+        p.value(vd, cA, m)
+        cmp_('BondOption (same model and product object)', {ot.name: float(p.value(vd, cB, m))}, want)
+        m = mk()                                             # re-used model, fresh products
+        bo().value(vd, cA, m)
+        cmp_('BondOption (same model object)', {ot.name: float(bo().value(vd, cB, m))}, want)
+        p = bo()                                             # re-used product, fresh models
+        p.value(vd, cA, mk())
+        cmp_('BondOption (same product object)', {ot.name: float(p.value(vd, cB, mk()))}, want)
+    if kind in ('hw', 'bk') and case.get('option_days'):
+        odts = [vd.add_days(k_) for k_ in case['option_days']]
+
+        def emb():
+            return BondEmbeddedOption(issue, mat, case['coupon'], freq, DayCountTypes.ACT_ACT_ICMA, odts,
+                                      [case['level']] * len(odts), [], [])
+        want = {k_: float(v) for k_, v in emb().value(vd, cB, mk()).items()}
+        m, p = mk(), emb()
+        p.value(vd, cA, m)
+        cmp_('BondEmbeddedOption (same model and product object)', {k_: float(v) for k_, v in p.value(vd, cB, m).items()}, want)
+        p = emb()
+        p.value(vd, cA, mk())
+        cmp_('BondEmbeddedOption (same product object)', {k_: float(v) for k_, v in p.value(vd, cB, mk()).items()}, want)
+    ex_dt = vd.add_years(case['swpn_exp_years'])
+    sw_mat = ex_dt.add_years(case['swpn_tenor_years'])
+
+    def sw():
+        return IborBermudanSwaption(vd, ex_dt, sw_mat, SwapTypes.PAY, FinExerciseTypes.BERMUDAN, case['fixed'],
+                                    FrequencyTypes.SEMI_ANNUAL, DayCountTypes.ACT_365F, 1_000_000.0)
+    want = {'pay_bermudan': float(sw().value(vd, cB, mk()))}
+    m, p = mk(), sw()
+    p.value(vd, cA, m)
+    cmp_('IborBermudanSwaption (same model and product object)', {'pay_bermudan': float(p.value(vd, cB, m))}, want)
+    return out, None
+
+
+ORACLES = {'tree': oracle_tree, 'bond': oracle_bond, 'option': oracle_option, 'reuse': oracle_reuse,
+           'reuseprod': oracle_reuse_product}
 
 
 def report(ctx, comp, case, fails):
@@ -610,6 +794,73 @@ def product_case(ctx, rng, np):
                     ctx.violation(f'IborBermudanSwaption[{kind}] bermudan {lt} {b!r} < european {e!r}', case,
                                   clause='american-ge-european')
             ctx.count('product/IborBermudanSwaption', 4, 4, sample={k: case[k] for k in ('kind', 'shape', 'exercise', 'fixed', 'values')})
+
+
+def reuse_cases(ctx, rng, np):
+    from financepy.utils.error import FinError
+    from financepy.utils.date import Date
+    from financepy.utils.frequency import FrequencyTypes
+    from financepy.utils.day_count import DayCountTypes
+    from financepy.products.bonds.bond import Bond
+    nmodel = 18 if ctx.quick() else 120
+    done = 0
+    for i in range(3 * nmodel):
+        if done >= nmodel:
+            break
+        kind = ['hw', 'bk', 'bdt'][i % 3]
+        case = gen_tree_case(rng, kind, True)
+        if case['n'] < 5 or case['T'] < 1.0:
+            continue
+        shapeB = rng.choice([s_ for s_ in SHAPES_POS if s_ != case['shape'] and s_ != 'zero'])
+        tB, dB = make_curve(rng, shapeB, lognormal=(kind != 'hw'))
+        case.update({'shapeB': shapeB, 'timesB': tB, 'dfsB': dB,
+                     'n2': rng.choice([k_ for k_ in (5, 7, 10, 13, 20) if k_ != case['n']])})
+        caseB = dict(case, times=tB, dfs=dB)
+        try:
+            AB = build_arrays(np, caseB)
+            bc = gen_bond_on(rng, dict(caseB), AB, True, np)
+            oc = gen_option_on(rng, dict(caseB), AB, np)
+            case['bond'] = {k_: bc[k_] for k_ in ('face', 'cpn_times', 'cpn_flows', 'call_t', 'call_p', 'put_t', 'put_p') if k_ in bc}
+            case['opt'] = {k_: oc[k_] for k_ in ('face', 'cpn_times', 'cpn_flows', 't_exp', 'strike')} if oc else None
+            fails, _ = oracle_reuse(np, case)
+        except (FinError, ZeroDivisionError):
+            continue                                          # the library's own drift search gave up on A or B
+        report(ctx, 'reuse', case, fails)
+        done += 1
+        ctx.count('reuse/model-object/' + kind, 3, 3, sample={'kind': kind, 'shapeA': case['shape'], 'shapeB': shapeB,
+                                                              'n': case['n'], 'n2': case['n2'], 'T': case['T']})
+    nprod = 6 if ctx.quick() else 45
+    for i in range(nprod):
+        kind = ['hw', 'bk', 'bdt'][i % 3]
+        shA, shB = rng.sample(['up', 'inv', 'hump', 'flat', 'steep'], 2)
+        tA, dA = make_curve(rng, shA)
+        tB, dB = make_curve(rng, shB)
+        vdmy = (rng.randint(1, 28), rng.randint(1, 12), rng.randint(2015, 2030))
+        vd = Date(*vdmy)
+        back, my = rng.randint(1, 5), rng.choice([3, 5, 8])
+        cpn = rng.choice([0.02, 0.04, 0.06])
+        freq = rng.choice(['ANNUAL', 'SEMI_ANNUAL'])
+        issue = vd.add_months(-back)
+        bond = Bond(issue, issue.add_years(my), cpn, FrequencyTypes[freq], DayCountTypes.ACT_ACT_ICMA)
+        cd = [d for d in bond.cpn_dts if d > vd.add_months(3)]
+        if len(cd) < 3:
+            continue
+        j = rng.randrange(0, len(cd) - 2)
+        exp_days = int((cd[j] - vd) + (cd[j + 1] - cd[j]) * rng.uniform(0.35, 0.65))
+        odts = [int(d - vd) for d in bond.cpn_dts[1:-1] if d > vd.add_months(7)]
+        case = {'kind': kind, 'shape': shA, 'shapeB': shB, 'times': tA, 'dfs': dA, 'timesB': tB, 'dfsB': dB,
+                'value_dmy': list(vdmy), 'issue_months_back': back, 'mat_years': my, 'coupon': cpn, 'freq': freq,
+                'n': rng.choice([20, 30]), 'sigma_hw': rng.choice([0.005, 0.01]), 'a': rng.choice([0.05, 0.1, 0.3]),
+                'sigma_ln': rng.choice([0.1, 0.2]), 'expiry_days': exp_days, 'strike': rng.choice([95.0, 100.0, 105.0]),
+                'option_days': sorted(rng.sample(odts, min(len(odts), 2))) if odts else [], 'level': rng.choice([100.0, 103.0]),
+                'swpn_exp_years': rng.choice([1, 2]), 'swpn_tenor_years': rng.choice([2, 3]), 'fixed': rng.choice([0.03, 0.05])}
+        try:
+            fails, _ = oracle_reuse_product(np, case)
+        except Exception as e:  # noqa: BLE001 - tame inputs; an exception is a failure of the product
+            ctx.violation(f'product valuation raised {type(e).__name__}: {e}', dict(case, component='reuseprod'), clause='raises')
+            continue
+        report(ctx, 'reuseprod', case, fails)
+        ctx.count('reuse/product/' + kind, 8, 8, sample={'kind': kind, 'shapeA': shA, 'shapeB': shB, 'n': case['n']})
 
 
 def annual(freq):
@@ -860,6 +1111,9 @@ def run(ctx):
         report(ctx, 'hwconv', case, fails)
         ctx.count('hw-convergence', 2 * len(steps), 2 * len(steps),
                   sample={'shape': shape, 'sigma': sigma, 'a': a, 't_exp': te, 'zcb': zcb, 'steps': steps})
+
+    # ---- re-use: a model / product object used on curve A and then on curve B = fresh objects on curve B
+    reuse_cases(ctx, ctx.rng('reuse'), np)
 
     # ---- products
     product_cases(ctx, ctx.rng('products'), np)
